@@ -84,12 +84,21 @@ class FakeSocket:
     def recv(self, n):
         if not self.ctl.in_worker():
             raise RuntimeError('transport read from a thread other than the session thread')
+        stash = getattr(self, '_record_rest', b'')
+        if stash:
+            # the rest of a TLS record that is already decrypted (see pending()): handed out without waiting for the peer
+            self._record_rest = stash[n:]
+            return stash[:n]
         r = self.ctl.ask('read', n)
+        if isinstance(r, (bytes, bytearray)) and len(r) > n:
+            # the scripted peer wrote one TLS record of more than n octets: recv(n) returns its first n octets, the rest is pending
+            self._record_rest = bytes(r[n:])
+            r = bytes(r[:n])
         return r
 
     def pending(self):
-        # ssl.SSLSocket.pending(): octets of an already decrypted record; the scripted reads hand out whole records
-        return 0
+        # ssl.SSLSocket.pending(): octets of an already decrypted record
+        return len(getattr(self, '_record_rest', b''))
 
     def send(self, data):
         if not self.ctl.in_worker():
